@@ -153,6 +153,10 @@ func (c *MapCodec) Read(data []byte, ptr unsafe.Pointer, wt plenccore.WireType) 
 	if n <= 0 {
 		return 0, fmt.Errorf("failed to read map size")
 	}
+	// Every entry takes at least one byte for its length
+	if count > uint64(len(data)-n) {
+		return 0, fmt.Errorf("map size %d exceeds data length", count)
+	}
 
 	// ptr is a pointer to a map pointer
 	if *(*unsafe.Pointer)(ptr) == nil {
